@@ -3,14 +3,22 @@
 # Applies /verif/seeded/NAME/patch.diff to /repo, runs the given quick checks against it, reverts
 # the patch, and appends one JSON line per check to /verif/seeded/results.jsonl.
 # (Run tools/seeded_run.sh --rebuild afterwards to rebuild the binaries from the clean tree.)
+# The patch only ever lives in /repo's working tree: the script refuses to start on a tree that
+# already has uncommitted changes, and reverts on every exit path (a seeded change that was still
+# applied when a session ended was once swept into a snapshot commit of /repo, DESIGN.md §7).
 cd /verif
 if [ "$1" = "--rebuild" ]; then git -C /repo checkout -- . ; exec ./check --build-only; fi
 name=$1; shift
-git -C /repo checkout -- .
+if [ -n "$(git -C /repo status --porcelain --untracked-files=no)" ]; then
+  echo "REFUSED: /repo has uncommitted changes (git -C /repo status); not applying $name"; exit 3
+fi
+revert() { git -C /repo checkout -- . ; }
+trap revert EXIT
+trap 'revert; exit 130' INT TERM HUP
 git -C /repo apply "/verif/seeded/$name/patch.diff" || { echo "PATCH DOES NOT APPLY: $name"; exit 3; }
 for c in "$@"; do
   t0=$(date +%s)
-  out=$(timeout 3000 ./check "$c" 2>&1); code=$?
+  out=$(timeout 1500 ./check "$c" 2>&1); code=$?
   t1=$(date +%s)
   viol=$(echo "$out" | grep -c "^VIOLATION property=")
   first=$(echo "$out" | grep -m1 "^VIOLATION property=" | cut -c1-200)
@@ -18,4 +26,3 @@ for c in "$@"; do
   printf '{"change":"%s","check":"%s","exit":%d,"violation_lines":%d,"seconds":%d,"first":"%s"}\n' \
     "$name" "$c" "$code" "$viol" "$((t1-t0))" "$first" >> seeded/results.jsonl
 done
-git -C /repo checkout -- .
